@@ -31,6 +31,8 @@ REQUIRED_THEOREMS = [
     "validators_reported", "issues_justified", "generated_validators_eq_model", "generated_validators_safe",
     "generated_validators_cover", "sound_generated", "defined_in_reported",
     "walker_positions_generated", "walk_positions_checked",
+    "issues_without_parameters_subset", "issues_with_parameters_extra",
+    "issues_antitone_in_parameters", "parameters_do_not_change_totality",
 ]
 TRUSTED = [
     "hand-written model lean/GlotaranModel/C20.lean of glotaran/model/item.py (iterate_names_and_labels, "
@@ -1254,6 +1256,7 @@ def run_case(ck, schema, scen_name, sc, muts, evaluate=False):
     lines, impl = [f"model {tree}"], ["model"]
 
     # ---- validation with and without parameters
+    gots = {}
     for with_ps in (True, False):
         ck.oracle_evals += 1
         res = real_issues(model, ps if with_ps else None)
@@ -1271,6 +1274,7 @@ def run_case(ck, schema, scen_name, sc, muts, evaluate=False):
         got = res[1]
         impl.append("ok " + core.lst(got))
         ck.count("outcome:issues" if got else "outcome:valid")
+        gots[with_ps] = got
         for g in got:
             ck.count("issue:" + g[1:].split(",")[0])
         # oracle: every dangling label / exclusive / unique violation is reported …
@@ -1313,6 +1317,23 @@ def run_case(ck, schema, scen_name, sc, muts, evaluate=False):
                                  f"Model.get_issues(parameters)={got}", case)
             except Exception as e:  # noqa: BLE001
                 ck.violation("internal-error-scheme-validate-" + type(e).__name__, f"Scheme.validate()/valid() raised {e!r}", case)
+
+    # ---- the parameter set only decides the ParameterIssues (Lean: issues_without_parameters_subset,
+    # issues_with_parameters_extra): get_issues(parameters=P) = get_issues() + [param, l] for labels l not in P
+    if True in gots and False in gots:
+        ck.oracle_evals += 1
+        rest = list(gots[True])
+        lost = []
+        for g in gots[False]:
+            if g in rest:
+                rest.remove(g)
+            else:
+                lost.append(g)
+        extra = [g for g in rest if not g.startswith("[param,") or g in [f"[param,{enc(p)}]" for p in present]]
+        if lost or extra:
+            ck.violation("parameters-change-other-issues",
+                         f"get_issues() reports {lost} that get_issues(parameters) does not, and get_issues(parameters) adds "
+                         f"{extra} (not a ParameterIssue of an absent label)", case)
 
     # ---- parameter labels / generated parameters
     lines.append("params")
